@@ -120,7 +120,7 @@ class REGCA1Model(Model):
                           indexer=self.bus,
                           tex_name=r'\theta',
                           info='Bus voltage angle',
-                          e_str='-Pe',
+                          e_str='-u * Pe',
                           ename='P',
                           tex_ename='P',
                           )
@@ -130,7 +130,7 @@ class REGCA1Model(Model):
                           indexer=self.bus,
                           tex_name=r'V',
                           info='Bus voltage magnitude',
-                          e_str='-Qe',
+                          e_str='-u * Qe',
                           ename='Q',
                           tex_ename='Q',
                           )
